@@ -35,6 +35,8 @@ type Result struct {
 	ExitSites int  `json:"exit_sites"`
 	Flagged   int  `json:"flagged_sites"`
 	UsesSync  bool `json:"uses_sync"`
+	// UsesTime: some library file imports package time (rewritten to the ztime shim: the simulator owns the clock).
+	UsesTime bool `json:"uses_time"`
 	// UsesAtomic: some library file imports sync/atomic (rewritten to the zatomic shim: every atomic operation is a yield).
 	UsesAtomic bool `json:"uses_atomic"`
 	// Unowned lists constructs the simulator cannot schedule (the library's own
@@ -97,7 +99,7 @@ func LibraryFiles(root string) ([]string, error) {
 			if skipDirs[info.Name()] || strings.HasPrefix(info.Name(), ".") || strings.HasPrefix(info.Name(), "_") {
 				return filepath.SkipDir
 			}
-			if rel == filepath.Join("internal", "zsimrt") || rel == filepath.Join("internal", "zsync") || rel == filepath.Join("internal", "zatomic") {
+			if rel == filepath.Join("internal", "zsimrt") || rel == filepath.Join("internal", "zsync") || rel == filepath.Join("internal", "zatomic") || rel == filepath.Join("internal", "ztime") {
 				return filepath.SkipDir
 			}
 			if _, err := os.Stat(filepath.Join(p, "go.mod")); err == nil {
@@ -189,6 +191,17 @@ func Instrument(root string, plain bool) (*Result, error) {
 			path, _ := strconv.Unquote(im.Path.Value)
 			if unownedImports[path] {
 				res.Notes = append(res.Notes, fmt.Sprintf("%s: import %q", f, path))
+			}
+			if path == "time" {
+				res.UsesTime = true
+				if !plain {
+					off := tf.Offset(im.Path.Pos())
+					repl := strconv.Quote(mod + "/internal/ztime")
+					if im.Name == nil {
+						repl = "time " + repl
+					}
+					edits = append(edits, edit{off: off, del: len(im.Path.Value), text: repl})
+				}
 			}
 			if path == "sync/atomic" {
 				res.UsesAtomic = true
@@ -525,5 +538,6 @@ func WriteSiteTable(root string, res *Result, instrumented bool) error {
 	sb.WriteString("}\n\n")
 	fmt.Fprintf(&sb, "// Instrumented is false in the degraded (uninstrumented) build.\nconst Instrumented = %v\n", instrumented)
 	fmt.Fprintf(&sb, "\n// UsesSync: some library file imports package sync (rewritten to the cooperative shim).\nconst UsesSync = %v\n", res.UsesSync)
+	fmt.Fprintf(&sb, "\n// UsesTime: some library file imports package time (rewritten to the ztime shim).\nconst UsesTime = %v\n", res.UsesTime)
 	return os.WriteFile(filepath.Join(root, "internal", "zsimrt", "sites_gen.go"), []byte(sb.String()), 0o644)
 }
